@@ -74,8 +74,32 @@ static void init(void) {
 
 /* ---------------------------------------------------------------- exact bound */
 static int admissible(int p, unsigned i) { return !(p == 2 && (i & 1)); }
+/* "the public phrase-buffer size": callers use the macro as a number, in every position an expression allows - they divide a pool
+ * by it, take remainders, negate it, multiply it.  It must behave like the size of polyseed_str everywhere (a macro body without
+ * parentheses has the right value on its own and the wrong one as the right operand of / or %) */
+static void macro_as_a_number(void) {
+    volatile size_t pool = 1000003, real = sizeof(polyseed_str), words = 16, img = sizeof(polyseed_storage);
+    bool ok = true;
+#define SAME(expr_macro, expr_real, what) do { long long a = (long long)(expr_macro), b = (long long)(expr_real); if (a != b) { ok = false; pv_violation("C17/public-size-macro-is-not-a-number", "%s: %lld with the macro, %lld with the size it stands for", what, a, b); } } while (0)
+    SAME(pool / POLYSEED_STR_SIZE, pool / real, "pool / POLYSEED_STR_SIZE");
+    SAME(pool % POLYSEED_STR_SIZE, pool % real, "pool % POLYSEED_STR_SIZE");
+    SAME(pool - POLYSEED_STR_SIZE, pool - real, "pool - POLYSEED_STR_SIZE");
+    SAME(-(long long)POLYSEED_STR_SIZE, -(long long)real, "-(long long)POLYSEED_STR_SIZE");
+    SAME(2 * POLYSEED_STR_SIZE, 2 * real, "2 * POLYSEED_STR_SIZE");
+    SAME(POLYSEED_STR_SIZE * 2, real * 2, "POLYSEED_STR_SIZE * 2");
+    SAME(!POLYSEED_STR_SIZE, !real, "!POLYSEED_STR_SIZE");
+    SAME(sizeof(char[POLYSEED_STR_SIZE]), real, "sizeof(char[POLYSEED_STR_SIZE])");
+    SAME(pool / POLYSEED_NUM_WORDS, pool / words, "pool / POLYSEED_NUM_WORDS");
+    SAME(pool % POLYSEED_NUM_WORDS, pool % words, "pool % POLYSEED_NUM_WORDS");
+    SAME(pool / POLYSEED_SIZE, pool / img, "pool / POLYSEED_SIZE");
+    SAME(pool % POLYSEED_SIZE, pool % img, "pool % POLYSEED_SIZE");
+#undef SAME
+    PV_COUNT("evaluations", 12);
+    if (ok) PV_COUNT("bound.public_size_macros_behave_as_numbers", 1);
+}
 static uint64_t n_bound(void) { return (uint64_t)pv_nlangs; }
 static void run_bound(uint64_t idx, pv_rng* rng) {
+    if (idx == 0) macro_as_a_number();
     (void)rng;
     int l = (int)idx; pv_mlang* L = &pv_langs[l];
     if (!L->lib) return;
